@@ -22,6 +22,23 @@ fn ensure_block_instruction(control_flow_graph: &mut ControlFlowGraph) -> Result
     Ok(())
 }
 
+fn moves_segment_selector(detail: &capstone::cs_x86) -> bool {
+    detail.operands[..detail.op_count as usize]
+        .iter()
+        .any(|operand| {
+            operand.type_ == capstone_sys::x86_op_type::X86_OP_REG
+                && matches!(
+                    operand.reg(),
+                    capstone_sys::x86_reg::X86_REG_CS
+                        | capstone_sys::x86_reg::X86_REG_DS
+                        | capstone_sys::x86_reg::X86_REG_ES
+                        | capstone_sys::x86_reg::X86_REG_FS
+                        | capstone_sys::x86_reg::X86_REG_GS
+                        | capstone_sys::x86_reg::X86_REG_SS
+                )
+        })
+}
+
 pub(crate) fn translate_block(
     mode: Mode,
     bytes: &[u8],
@@ -101,7 +118,26 @@ pub(crate) fn translate_block(
             let semantics = Semantics::new(&mode, &instruction);
             let mut instruction_graph = ControlFlowGraph::new();
 
+            // instructions without semantics: an intrinsic or an error, as the options ask
+            let unsupported = |instruction_graph: &mut ControlFlowGraph| -> Result<(), Error> {
+                if options.unsupported_are_intrinsics() {
+                    unhandled_intrinsic(instruction_graph, &instruction)
+                } else {
+                    Err(Error::Custom(format!(
+                        "Unhandled instruction {} {} at 0x{:x}",
+                        instruction.mnemonic, instruction.op_str, instruction.address
+                    )))
+                }
+            };
+
             match instruction_id {
+                // a mov to or from a segment register moves a selector, while the scalars
+                // standing for the segment registers hold the segment bases
+                capstone::x86_insn::X86_INS_MOV
+                    if moves_segment_selector(&semantics.details()?) =>
+                {
+                    unsupported(&mut instruction_graph)
+                }
                 capstone::x86_insn::X86_INS_ADC => semantics.adc(&mut instruction_graph),
                 capstone::x86_insn::X86_INS_ADD => semantics.add(&mut instruction_graph),
                 capstone::x86_insn::X86_INS_AND => semantics.and(&mut instruction_graph),
@@ -271,16 +307,7 @@ pub(crate) fn translate_block(
                 capstone::x86_insn::X86_INS_XADD => semantics.xadd(&mut instruction_graph),
                 capstone::x86_insn::X86_INS_XCHG => semantics.xchg(&mut instruction_graph),
                 capstone::x86_insn::X86_INS_XOR => semantics.xor(&mut instruction_graph),
-                _ => {
-                    if options.unsupported_are_intrinsics() {
-                        unhandled_intrinsic(&mut instruction_graph, &instruction)
-                    } else {
-                        return Err(Error::Custom(format!(
-                            "Unhandled instruction {} {} at 0x{:x}",
-                            instruction.mnemonic, instruction.op_str, instruction.address
-                        )));
-                    }
-                }
+                _ => unsupported(&mut instruction_graph),
             }?;
 
             let detail = semantics.details()?;
